@@ -82,7 +82,7 @@ PROPS = {
         "case_sets": ["compile"],
         "ops": ["COMPILE"],
         "oracle_clauses": [r"c01-.*", r"c05-lex", r"c05-parse", r"c05-brackets", r"c12-.*", r"unreadable-.*"],
-        "lean_targets": ["PqlModel.Props.C01", "PqlModel.Props.C01LexRender"],
+        "lean_targets": ["PqlModel.Props.C01", "PqlModel.Props.C01LexRender", "PqlModel.Props.C01Sem"],
         "facts": ["binaryOps", "builtinIdentifiers", "knownFunctions", "writerArityGuard", "maybeParenBare", "precedence"],
         "rule": "COMPILE: hand-written corpus of expression shapes (parentheses, signs, index, in, every built-in as operand of "
                 "every operator class) + grammar-generated programs with expressions in every position; the oracle re-reads "
@@ -114,7 +114,7 @@ PROPS = {
         "case_sets": ["compile"],
         "ops": ["COMPILE", "COMPILESEQ"],
         "oracle_clauses": [r"c06-.*", r"unreadable-.*"],
-        "lean_targets": ["PqlModel.Props.C06"],
+        "lean_targets": ["PqlModel.Props.C06", "PqlModel.Props.C06Subst", "PqlModel.Props.C14Order"],
         "facts": ["builtinIdentifiers"],
         "rule": "COMPILE with parameter maps (names colliding with columns, constants, let names) and let chains (shadowing, "
                 "redefinition, lets after the query, uses under signs, before [, in in-lists, join conditions, row counts); the "
@@ -136,7 +136,7 @@ PROPS = {
         "ops": ["HIST", "FIRSTUSE", "COMPILESEQ"],
         "race": True,
         "oracle_clauses": [r"c14-.*", r"unreadable-.*"],
-        "lean_targets": ["PqlModel.Props.C14"],
+        "lean_targets": ["PqlModel.Props.C14", "PqlModel.Props.C14Order"],
         "facts": ["pkgVars", "pkgVarWrites", "parameterMapWrites"],
         "rule": "HIST: one (source, parameters) pair compiled k times from each of 2-64 goroutines, interleaved with Parse/Scan "
                 "of the same source and Compile of other sources, in a race-detector build; every result must equal the model's "
